@@ -41,6 +41,7 @@ CONSTANTS H,                \* half width of the grid
           Chained,          \* TRUE: every operation involves the result of the previous one (chains proper)
           PolyOps,          \* subset of {"setop","rotate","translate","scale","copy","poke"}
           DevOps,           \* subset of {"mkdev","devcopy","devtranslate","devrotate","devscale"}
+          TiltQuarters,     \* New: the `angle` argument of the primitive, in quarter turns (subset of 0..3)
           ProbeModes,       \* how MkDev chooses probe points: subset of {"none","inside","outside"}
           MSubIsDifference, \* `a - b` / difference() is the set difference
           MCopyOnTransform, \* polygon = self if inplace else self.copy()
@@ -174,10 +175,12 @@ Commit(o, os, ds, nbuf, isop) ==
 IsObj(a) == a \in 1 .. Len(objs)
 IsDev(d) == d \in 1 .. Len(devs)
 
-DoNew(bx) ==
-  LET S == BoxCells(BoxOf(bx)) IN
-  /\ S # {}
-  /\ Commit([NoOp EXCEPT !.op = "new", !.a = bx, !.res = Len(objs) + 1],
+\* the geometry primitive box(w, h, center=c, angle=90 q): "rotated counterclockwise about (0, 0) AFTER translating
+\* to the centre", i.e. the same region as Polygon(box(w, h, center=c)).rotate(90 q)
+DoNew(bx, q) ==
+  LET S == RotSet(BoxCells(BoxOf(bx)), <<0, 0>>, q) IN
+  /\ S # {} /\ InGrid(S)
+  /\ Commit([NoOp EXCEPT !.op = "new", !.a = bx, !.q = q, !.res = Len(objs) + 1],
             Append(objs, MkObj(S, TRUE, nb)), devs, nb + 1, FALSE)
 
 DoSetOp(kind, a, b) ==
@@ -321,7 +324,7 @@ DoDevScale(d, fc, oc) ==
 ----------------------------------------------------------------------------
 \* enumeration inside the bounds (boxes first, in non-decreasing code order, then operations)
 New == /\ nops = 0 /\ Len(objs) < MaxBoxes /\ devs = <<>>
-       /\ \E bx \in Boxes : (last.o.op = "new" => bx >= last.o.a) /\ DoNew(bx)
+       /\ \E bx \in Boxes, q \in TiltQuarters : (last.o.op = "new" => bx >= last.o.a) /\ DoNew(bx, q)
 Ids == 1 .. Len(objs)
 HoleSeqs == {<<>>} \cup (IF MaxHoles >= 1 THEN {<<j>> : j \in Ids} ELSE {})
                    \cup (IF MaxHoles >= 2 THEN {<<j, k>> : j, k \in Ids} ELSE {})
@@ -449,7 +452,11 @@ ProbesValidatedAtConstruction ==
     IN  IF ProbesIn(pr, ins) THEN Ok /\ Len(devs) = Len(last.pdevs) + 1 /\ (L.op = "mkdev" => devs[L.res].probes = L.probes)
         ELSE L.out = "ValueError" /\ Len(devs) = Len(last.pdevs) /\ Len(objs) = NPre
 
-Clauses == /\ TypeOK /\ OnlySetOpsFail /\ ProbesValidatedAtConstruction /\ AreaMatchesMembership /\ StoredClosedAndCCW /\ AreaLaw /\ PointsMapWithShapes
+\* a primitive given with angle = 90 q is the untilted one turned counter-clockwise about (0, 0)
+PrimitiveAngleIsCounterClockwise ==
+  L.op = "new" => Ok /\ L.res = Len(objs) /\ objs[L.res].cells = RotSet(BoxCells(BoxOf(L.a)), <<0, 0>>, L.q)
+
+Clauses == /\ TypeOK /\ OnlySetOpsFail /\ ProbesValidatedAtConstruction /\ PrimitiveAngleIsCounterClockwise /\ AreaMatchesMembership /\ StoredClosedAndCCW /\ AreaLaw /\ PointsMapWithShapes
            /\ SetOpsArePointwise /\ NonInplaceNeverMutates /\ InplaceReturnsSelf /\ CopiesDoNotAlias
            /\ DeviceIsFilmMinusHoles
 
